@@ -179,6 +179,8 @@ Proof. vm_compute. reflexivity. Qed.
 Example C13_nonvacuous_monitor :
   holdsb [BClose; BOpen; BClose; BOpen; BOpen] = false /\
   holdsb [InvUp 1; BClose; BOpen; RetUp 1; InvDown 2; BClose; RetDown 2; ObsBegin 2; RecvLoopRunning 2] = false /\
+  holdsb [InvUp 1; BClose; BOpen; RetUp 1; SendEnter 7; InvDown 2; BClose; RetDown 2; SendExit 7; BRefused] = false /\
+  holdsb [InvUp 1; BClose; BOpen; RetUp 1; SendEnter 7; InvDown 2; SendExit 7; BSend; BClose; RetDown 2] = true /\
   holdsb [InvUp 1; BClose; BOpen; RetUp 1; InvDown 2; InvUp 3; BClose; RetDown 2; ObsBegin 2; RecvLoopRunning 2] = true /\
   holdsb [InvUp 1; BClose; BOpen; RetUp 1; InvDown 2; BClose; RetDown 2; ObsBegin 2; PeerRunning 2] = true /\
   saw_running_peerb [InvUp 1; BClose; BOpen; RetUp 1; InvDown 2; BClose; RetDown 2; ObsBegin 2; PeerRunning 2] = true /\
